@@ -390,6 +390,48 @@ def registry_history(ctx, nhist=12):
     ctx.count("registry-histories", nhist)
 
 
+def conditional_receiver(ctx):
+    """a typed call on an object that is one class or a subclass of it, depending on the data, where the subclass declares the method
+    again with another default: no single declared default is 'the' default of that call site. Refusing the conditional, or leaving
+    the call as written, are both fine; writing ONE class's default into it is not"""
+    from typing import Iterable
+
+    from func_adl import EventDataset
+
+    class Track:
+        def pt(self, scale: float = 1.0) -> float: ...
+        def eta(self) -> float: ...
+
+    class Muon(Track):
+        def pt(self, scale: float = 0.001) -> float: ...
+
+    class Evt:
+        def has_muon(self) -> bool: ...
+        def lead_muon(self) -> Muon: ...
+        def lead_track(self) -> Track: ...
+        def tracks(self) -> Iterable[Track]: ...
+
+    class DS(EventDataset):
+        async def execute_result_async(self, a, title=None):
+            return a
+
+    for text in ("lambda e: (e.lead_muon() if e.has_muon() else e.lead_track()).pt()", "lambda e: (e.lead_track() if e.has_muon() else e.lead_muon()).pt()",
+                 "lambda e: e.tracks().Select(lambda t: (e.lead_muon() if t.eta() > 1 else t).pt())"):
+        ctx.case("conditional-receiver:" + text, True)
+        ctx.count("conditional-receiver-cases")
+        try:
+            s = DS(Evt).Select(text)
+        except ValueError:
+            ctx.count("conditional-receiver:refused")
+            continue
+        except Exception as e:
+            ctx.violation(f"conditional-receiver:exc:{type(e).__name__}", f"{text}: {type(e).__name__}: {str(e)[:200]}", {"conditional_receiver": True})
+            continue
+        out = astx.unparse(s.query_ast.args[1])
+        if ".pt(1.0)" in out or ".pt(0.001)" in out:
+            ctx.violation("conditional-receiver:one-class's-default-written-into-the-call", f"{text} emitted {out}: Track.pt declares scale=1.0, Muon.pt declares scale=0.001, python calls the method of the object that is there", {"conditional_receiver": True})
+
+
 def shard_main(ctx):
     from func_adl import EventDataset
 
@@ -399,6 +441,8 @@ def shard_main(ctx):
 
     if ctx.shard in (0, 2, 4):
         registry_history(ctx)
+    if ctx.shard == 0:
+        conditional_receiver(ctx)
     n = N_CASES[ctx.tier]
     per_model = 40
     i = 0
@@ -431,6 +475,9 @@ def replay(ctx, witness):
 
     if witness.get("registry_history"):
         registry_history(ctx)
+        return
+    if witness.get("conditional_receiver"):
+        conditional_receiver(ctx)
         return
     ns = {}
     exec(compile(witness["model"], "<replay-model>", "exec"), ns)
